@@ -69,23 +69,17 @@ public:
 	pair->secondPart()->force[/* this->m_ */force_index] -= f;
 #else
       
-      // FIXME!:
-      // Are all these colour checks below really necessary?!?
+      // LJ::setForceSlots stores the copy slot of the pair's first colour in .first and the one of its second colour in
+      // .second (whatever the order of species1/species2), so the first partner uses .first and the second one .second
       
       if (pair->actsOnFirst()) {
 	for (int _i = 0; _i < SPACE_DIMS; ++_i) {
-	  if (m_c1 == pair->firstPart()->c)
-	    (*pair->firstPart()->tag.vectorDoubleByOffset(m_offsetToVec[thread_no].first))[m_posInVec.first + _i] += f[_i];
-	  else if (m_c2 == pair->firstPart()->c)
-	    (*pair->firstPart()->tag.vectorDoubleByOffset(m_offsetToVec[thread_no].second))[m_posInVec.second + _i] += f[_i];
+	  (*pair->firstPart()->tag.vectorDoubleByOffset(m_offsetToVec[thread_no].first))[m_posInVec.first + _i] += f[_i];
 	}
       }
       if (pair->actsOnSecond()) {
 	for (int _i = 0; _i < SPACE_DIMS; ++_i) {
-	  if (m_c1 == pair->secondPart()->c)
-	    (*pair->secondPart()->tag.vectorDoubleByOffset(m_offsetToVec[thread_no].first))[m_posInVec.first + _i] -= f[_i];
-	  else if (m_c2 == pair->secondPart()->c)
-	    (*pair->secondPart()->tag.vectorDoubleByOffset(m_offsetToVec[thread_no].second))[m_posInVec.second + _i] -= f[_i];
+	  (*pair->secondPart()->tag.vectorDoubleByOffset(m_offsetToVec[thread_no].second))[m_posInVec.second + _i] -= f[_i];
 	}
       }
       
